@@ -496,38 +496,48 @@ Proof.
   unfold C01.wr_write. destruct (L =? 0)%N; simpl; auto. rewrite O, D. simpl. auto.
 Qed.
 
+Lemma live_result_short L k buf t : (N.of_nat (length t) < L)%N ->
+  live_result L k buf t = (mkW k true t t FPending, false, ROk).
+Proof.
+  intros Hl. unfold live_result.
+  destruct (N.ltb_spec L (N.of_nat (length t))); [lia|].
+  destruct (N.eqb_spec (N.of_nat (length t)) L); [lia|]. auto.
+Qed.
+
+Lemma live_result_buf L k buf buf' t : (N.of_nat (length t) <= L)%N ->
+  live_result L k buf t = live_result L k buf' t.
+Proof.
+  intros Hl. unfold live_result. destruct (N.ltb_spec L (N.of_nat (length t))); [lia|]. auto.
+Qed.
+
 Lemma feed_concat L w cs : live L w -> (N.of_nat (length (w_buf w)) < L)%N ->
   (N.of_nat (length (w_buf w ++ concat cs)) <= L)%N ->
   feed (Some L) w cs = fst (fst (wr_write (Some L) w (concat cs))).
 Proof.
   revert w. induction cs as [|c r IH]; intros w Lv Hlt Hle.
-  - cbn [feed concat]. rewrite wr_write_live by auto. unfold live_result. rewrite app_nil_r.
-    destruct (N.ltb_spec L (N.of_nat (length (w_buf w)))); [lia|].
-    destruct (N.eqb_spec (N.of_nat (length (w_buf w))) L); [lia|]. simpl.
+  - cbn [feed concat]. rewrite wr_write_live by auto. rewrite app_nil_r.
+    rewrite live_result_short by auto. simpl.
     destruct Lv as (O & P & S & _). destruct w; simpl in *. congruence.
   - cbn [feed concat]. rewrite !wr_write_live by auto. rewrite app_assoc.
     set (t := w_buf w ++ c) in *.
     assert (Hl : (N.of_nat (length (t ++ concat r)) <= L)%N).
     { unfold t. rewrite <- app_assoc. exact Hle. }
-    rewrite app_length in Hl.
-    unfold live_result at 2.
-    destruct (N.ltb_spec L (N.of_nat (length t))); [lia|].
-    destruct (N.eqb_spec (N.of_nat (length t)) L) as [El|Hn].
+    assert (Hl' := Hl). rewrite app_length in Hl'.
+    destruct (N.eq_dec (N.of_nat (length t)) L) as [El|Hn].
     + (* complete at this chunk: everything that follows is empty *)
       assert (Er : concat r = []) by (apply length_zero_iff_nil; lia).
       rewrite Er, app_nil_r. unfold live_result.
       destruct (N.ltb_spec L (N.of_nat (length t))); [lia|].
       destruct (N.eqb_spec (N.of_nat (length t)) L); [|contradiction].
       destruct (bytes_eqb (H t) h); simpl; apply feed_dead; auto.
-    + simpl. rewrite IH.
-      * rewrite wr_write_live by (destruct Lv as (_ & _ & _ & X); repeat split; auto). simpl.
-        unfold live_result.
-        rewrite !app_length.
-        destruct (N.ltb_spec L (N.of_nat (length t + length (concat r)))); [lia|].
-        destruct (N.eqb_spec (N.of_nat (length t + length (concat r))) L); auto.
-      * destruct Lv as (_ & _ & _ & X); repeat split; auto.
+    + rewrite (live_result_short L (w_key w) (w_buf w) t) by lia. cbn [fst].
+      destruct Lv as (_ & _ & _ & X).
+      rewrite IH.
+      * rewrite wr_write_live by (repeat split; auto). cbn [w_key w_buf].
+        rewrite (live_result_buf L (w_key w) t (w_buf w)); auto.
+      * repeat split; auto.
       * simpl. lia.
-      * simpl. rewrite app_length. lia.
+      * simpl. exact Hl.
 Qed.
 
 Lemma chunking_irrelevant L w cs1 cs2 : live L w -> (N.of_nat (length (w_buf w)) < L)%N ->
